@@ -28,7 +28,7 @@ def check_i1(rep):
     import fe
     import pe
     from report import Finding
-    rep.rule("I1", "integrate_absolute_polynomial: in every ordering of the roots relative to [t0,t1] the result is |sum of signed antiderivative differences|", minimum=10)
+    rep.rule("I1", "integrate_absolute_polynomial: in every ordering of the roots relative to [t0,t1] and every sign of (A, B) the result is |sum of signed antiderivative differences|", minimum=25)
     idx = A.index(fe.ast_dump("integrate_absolute_polynomial"))
     fns = [d for d in idx if d.kind in A.FUNCS and d.pattern and d.qname.split("::")[-1] == "integrate_absolute_polynomial" and A.body(d.node) is not None]
     if len(fns) != 1:
@@ -41,10 +41,68 @@ def check_i1(rep):
         pass
     POS = {"L": -1, "t0": 0, "I": 1, "t1": 2, "R": 3}     # position classes of a point relative to t0 < t1
 
-    def run_case(kind, cls):
-        """kind: const | linear | quad0 (no real roots) | quad2 ; cls: position class(es) of the root(s).
+    def xev(e, env, loc):
+        """exact evaluation over rationals: + - * /, sqrt of perfect squares, abs, comparisons, ?: ; locals are expanded from `loc`"""
+        t = e[0]
+        if t == "num":
+            return Fraction(e[1])
+        if t == "ref":
+            if e[1] in env:
+                return Fraction(env[e[1]])
+            if e[1] in loc:
+                return xev(loc[e[1]], env, loc)
+            raise Bad("unknown name %s" % e[1])
+        if t == "neg":
+            return -xev(e[1], env, loc)
+        if t == "ctor" and len(e[2]) == 1:
+            return xev(e[2][0], env, loc)
+        if t == "cond":
+            return xev(e[2], env, loc) if xev(e[1], env, loc) else xev(e[3], env, loc)
+        if t == "op":
+            a, b = xev(e[2], env, loc), xev(e[3], env, loc)
+            op = e[1]
+            if op == "/":
+                if b == 0:
+                    raise Bad("division by zero in a root formula")
+                return a / b
+            return {"+": lambda: a + b, "-": lambda: a - b, "*": lambda: a * b, "<": lambda: Fraction(int(a < b)), ">": lambda: Fraction(int(a > b)),
+                    "<=": lambda: Fraction(int(a <= b)), ">=": lambda: Fraction(int(a >= b)), "==": lambda: Fraction(int(a == b)),
+                    "!=": lambda: Fraction(int(a != b)), "&&": lambda: Fraction(int(bool(a) and bool(b))), "||": lambda: Fraction(int(bool(a) or bool(b)))}[op]()
+        if t == "call":
+            nm = str(e[1]).split("::")[-1]
+            args = [xev(a, env, loc) for a in e[2]]
+            if nm == "sqrt":
+                from math import isqrt
+                v = args[0]
+                if v < 0:
+                    raise Bad("sqrt of a negative number")
+                rn, rd = isqrt(v.numerator), isqrt(v.denominator)
+                if rn * rn != v.numerator or rd * rd != v.denominator:
+                    raise Bad("sqrt of a non-square rational")
+                return Fraction(rn, rd)
+            if nm in ("abs", "fabs"):
+                return abs(args[0])
+            if nm == "copysign":
+                return abs(args[0]) * (1 if args[1] >= 0 else -1)
+            if nm == "min":
+                return min(args)
+            if nm == "max":
+                return max(args)
+        raise Bad("cannot evaluate `%s` exactly" % A.show(e)[:50])
+
+    # quadratics A (x - r1)(x - r2) with rational roots r1 < r2, by sign of A and of B = -A (r1 + r2)
+    def quad_instances(sa, sb):
+        roots = [(1, 3), (-1, 4), (Fraction(1, 2), 5)] if sa * sb < 0 else [(-3, -1), (-4, 1), (-5, Fraction(-1, 2))]
+        out = []
+        for (r1, r2), a in zip(roots, (2, 5, 3)):
+            a = a * sa
+            out.append((Fraction(a), Fraction(-a) * (r1 + r2), Fraction(a) * r1 * r2, Fraction(r1), Fraction(r2)))
+        return out
+
+    def run_case(kind, cls, sc=(1, 1)):
+        """kind: const | linear | quad0 (no real roots) | quad2 ; cls: position class(es) of the root(s); sc: signs of (A, B) for quad2.
         returns the linear combination {point: coeff} inside the final abs()."""
-        nums = {"const": {"A": 0, "B": 0}, "linear": {"A": 0, "B": 3}, "quad0": {"A": 2, "B": 3}, "quad2": {"A": 2, "B": 3}}[kind]
+        nums = {"const": {"A": 0, "B": 0}, "linear": {"A": 0, "B": 3}, "quad0": {"A": 2, "B": 3}, "quad2": {"A": 2 * sc[0], "B": 3 * sc[1]}}[kind]
         env = {}           # variable -> abstract point name or ('lin', dict)
         pos = {"t0": "t0", "t1": "t1", "inf": "R"}
         if kind == "linear":
@@ -76,19 +134,15 @@ def check_i1(rep):
                         return "r"
                 except pe.PEError:
                     pass
-            if kind == "quad2" and e[0] == "op" and e[1] in ("+", "-") and e[3][0] == "call" and str(e[3][1]).split("::")[-1] == "sqrt":
-                ok = True
-                for a, b, c in ((2, 3, -5), (-1, 4, 7), (3, -2, -9)):
-                    try:
-                        cen = pe.ev(e[2], {"A": a, "B": b, "C": c})
-                        rad2 = pe.ev(e[3][2][0], {"A": a, "B": b, "C": c, **res_env(a, b, c)})
-                    except pe.PEError:
-                        ok = False
-                        break
-                    if cen != Fraction(-b, 2 * a) or rad2 != Fraction(b * b, 4 * a * a) - Fraction(c, a):
-                        ok = False
-                if ok:
-                    return "r1" if e[1] == "-" else "r2"
+            if kind == "quad2":
+                which = set()
+                for a, b, c, r1, r2 in quad_instances(*sc):
+                    v = xev(e, {"A": a, "B": b, "C": c}, locals_)
+                    which.add("r1" if v == r1 else ("r2" if v == r2 else "?"))
+                if which == {"r1"} or which == {"r2"}:
+                    return which.pop()
+                if "?" not in which:
+                    raise Bad("`%s` is the smaller root for some coefficients and the larger one for others within one sign case" % A.show(e)[:40])
             raise Bad("cannot interpret `%s` as a point" % A.show(e)[:60])
 
         def res_env(a, b, c):
@@ -228,12 +282,12 @@ def check_i1(rep):
         for p, c in (("t1", 1), ("t0", -1), (cl[0], 2), (cl[1], -2)):
             want[p] = want.get(p, 0) + c
         return {p: c for p, c in want.items() if c != 0}
-    cases = [("const", ()), ("quad0", ())] + [("linear", (c,)) for c in ("L", "I", "R")] + \
-            [("quad2", c) for c in (("L", "L"), ("L", "I"), ("L", "R"), ("I", "I"), ("I", "R"), ("R", "R"))]
-    for kind, cls in cases:
-        inst = "%s%s" % (kind, list(cls))
+    cases = [("const", (), (1, 1)), ("quad0", (), (1, 1))] + [("linear", (c,), (1, 1)) for c in ("L", "I", "R")] + \
+            [("quad2", c, sc_) for c in (("L", "L"), ("L", "I"), ("L", "R"), ("I", "I"), ("I", "R"), ("R", "R")) for sc_ in ((1, 1), (1, -1), (-1, 1), (-1, -1))]
+    for kind, cls, sc_ in cases:
+        inst = "%s%s" % (kind, list(cls)) + (" A%s B%s" % ("+" if sc_[0] > 0 else "-", "+" if sc_[1] > 0 else "-") if kind == "quad2" else "")
         try:
-            got = run_case(kind, cls)
+            got = run_case(kind, cls, sc_)
         except (Bad, pe.PEError, KeyError) as ex_:
             rep.broke("I1: cannot analyse case %s: %s" % (inst, ex_))
             continue
